@@ -167,7 +167,8 @@ func runC05(ci interface{}) Result {
 		walk = func(sts []engine.Step) {
 			for _, st := range sts {
 				switch st.Op {
-				case "incr", "setcur", "settotal", "etc", "abort":
+				case "incr", "setcur", "settotal", "etc", "abort", "proxy":
+					// (bytes passed through a proxy reader/writer advance the bar too)
 					touched[st.Bar] = true
 				}
 				for _, blk := range st.Par {
